@@ -7,8 +7,7 @@
 //! failure.
 #![no_main]
 use libfuzzer_sys::fuzz_target;
-use read_fonts::{FontRef, TableProvider};
-use vf_c13::{generic_verdicts, outcome_nontrivial, paint_direct, Policy, Want};
+use vf_c13::{generic_verdicts, listed_base_glyphs, outcome_nontrivial, paint_direct, Policy, Want};
 use vf_fuzz::{input_id, judge_panic, stat, violation};
 
 fn seeds() -> Vec<(String, Vec<u8>)> {
@@ -24,28 +23,9 @@ fn seeds() -> Vec<(String, Vec<u8>)> {
     out
 }
 
-fn base_glyphs(font: &[u8]) -> Vec<(u32, bool)> {
-    let mut ids: Vec<(u32, bool)> = vec![];
-    let Ok(fr) = FontRef::new(font) else { return ids };
-    let Ok(colr) = fr.colr() else { return ids };
-    if let Some(Ok(list)) = colr.base_glyph_list() {
-        for r in list.base_glyph_paint_records().iter().take(12) {
-            ids.push((r.glyph_id().to_u32(), true));
-        }
-    }
-    if let Some(Ok(recs)) = colr.base_glyph_records() {
-        for r in recs.iter().take(6) {
-            ids.push((r.glyph_id().to_u32(), false));
-        }
-    }
-    ids.sort_unstable();
-    ids.dedup();
-    ids
-}
-
 fn run(data: &[u8]) {
     let font = vf_core::gen::build_sfnt(0x0001_0000, &[(*b"COLR", data.to_vec())]);
-    let ids = match vf_core::guard(|| base_glyphs(&font)) {
+    let ids = match vf_core::guard(|| listed_base_glyphs(&font)) {
         Ok(v) => v,
         Err(p) => return judge_panic(&p, "COLR base glyph listing"),
     };
